@@ -4,6 +4,7 @@ import EpdVerif.Oracle.All
 import EpdVerif.Table
 import EpdVerif.Lemmas.SsdMode
 import EpdVerif.Lemmas.UcPower
+import EpdVerif.KernelRfl
 /-!
 # Schedule-free / payload-free checks of a program, and the tactic that decides them per panel
 
@@ -88,18 +89,21 @@ def powerEstablishP (p : Panel) (acts : List Act) : Option Bool :=
     | none => none
   | _, _ => none
 
-/-- decide a closed-control-flow statement by kernel evaluation, after splitting the feature flags
+/-- (session 4: the evaluation is handed to the kernel alone — `kernel_decide`, see `KernelRfl.lean` —
+    instead of being run twice, first by the elaborator's `isDefEq` under a heartbeat budget and then
+    by the kernel)
+    decide a closed-control-flow statement by kernel evaluation, after splitting the feature flags
     `f` and the control-relevant driver fields of `d` into cases -/
 macro "panel_decide " f:ident d:ident : tactic => `(tactic| first
-  | exact of_decide_eq_true (Eq.refl true)
+  | kernel_decide
   | (rcases $f:ident with ⟨v2, alt⟩
      rcases $d:ident with ⟨bg, refresh, isOn, partialFlag, sleepMode, oldData⟩
      cases v2 <;> cases alt <;> cases refresh <;> cases isOn <;> cases partialFlag <;>
-       exact of_decide_eq_true (Eq.refl true))
+       kernel_decide)
   | (rcases $f:ident with ⟨v2, alt⟩
      rcases $d:ident with ⟨bg, refresh, isOn, partialFlag, sleepMode, oldData⟩
      rcases bg with _ | _ | _ | bg <;>
      cases v2 <;> cases alt <;> cases refresh <;> cases isOn <;> cases partialFlag <;>
-       exact of_decide_eq_true (Eq.refl true)))
+       kernel_decide))
 
 end EpdVerif.Props
